@@ -37,6 +37,8 @@ enum Call {
     FeedEof,
     FeedCutEof(usize),
     FeedErr,
+    Send(Vec<u8>),
+    Pump,
 }
 
 fn parse_call(tok: &str) -> Call {
@@ -60,6 +62,8 @@ fn parse_call(tok: &str) -> Call {
         ["F", "eof"] => Call::FeedEof,
         ["F", "cut", k] => Call::FeedCutEof(k.parse().unwrap()),
         ["F", "err"] => Call::FeedErr,
+        ["S", d] => Call::Send(unhex(d)),
+        ["P"] => Call::Pump,
         _ => panic!("bad call {}", tok),
     }
 }
@@ -76,6 +80,8 @@ struct Shared {
     last_point: HashMap<usize, String>,
     /// set by a task whose call was not ready (it re-parked at h.call without progress)
     blocked: HashMap<usize, bool>,
+    /// the task that runs process_stream_data (the forwarding loop)
+    pump: Option<usize>,
 }
 
 type Sh = Arc<Mutex<Shared>>;
@@ -193,6 +199,15 @@ async fn run_case(start: bool, groups: Vec<Vec<Call>>, sched: Vec<usize>) -> Str
             let mut synack_rx: Option<oneshot::Receiver<anytls_rs::util::Result<()>>> = None;
             let mut stream: Option<Arc<anytls_rs::session::Stream>> = None;
             let mut verdict_taken: Option<&'static str> = None;
+            if matches!(prog.first(), Some(Call::Pump)) {
+                // the forwarding task: ONE long call; the remaining P tokens of the program stand for its loop
+                // iterations (the scheduling point at the top of the loop plays the role of h.call)
+                park(&sh2, "h.call").await;
+                sh2.lock().unwrap().pump = Some(i);
+                let _ = s.process_stream_data().await;
+                sh2.lock().unwrap().done.insert(i, true);
+                return;
+            }
             for call in prog {
                 let res: &'static str = loop {
                     park(&sh2, "h.call").await;
@@ -340,6 +355,18 @@ async fn run_case(start: bool, groups: Vec<Vec<Call>>, sched: Vec<usize>) -> Str
                             let _ = ftx.send(REv::Eof);
                             break "ok";
                         }
+                        Call::Send(d) => {
+                            // Stream::send_data: the stream's own closed flag, then the unbounded channel
+                            let st = match &stream {
+                                Some(st) => st.clone(),
+                                None => break "nostream",
+                            };
+                            break match st.send_data(Bytes::from(d.clone())) {
+                                Ok(()) => "ok",
+                                Err(_) => "closed",
+                            };
+                        }
+                        Call::Pump => break "nostream",
                         Call::FeedErr => {
                             let _ = ftx.send(REv::Err(std::io::ErrorKind::ConnectionReset, "injected read error"));
                             break "ok";
@@ -444,9 +471,13 @@ async fn run_case(start: bool, groups: Vec<Vec<Call>>, sched: Vec<usize>) -> Str
             n.clone()
         } else if g.last_point.get(&t).map(|s| s.as_str()) == Some("queued") {
             "queued".to_string()
+        } else if g.pump == Some(t) {
+            // not parked at a point, not queued on the writer, not returned: inside select!{notified(), recv()}
+            "pump.wait".to_string()
         } else {
             "lost".to_string()
         };
+        let res = if g.pump == Some(t) { "-".to_string() } else { res };
         out.push_str(&format!(" t{}:{}:{}", t, pc, res));
     }
     drop(g);
